@@ -227,6 +227,17 @@ async fn run_sender_v3(sink: ntex_mqtt::v3::MqttSink, kind: SK, j: usize, app: A
     app.borrow_mut()[j].done = true;
 }
 
+/// Spawn the application task for sender `j`.
+pub fn start_sender(sink: &Sink, kind: SK, j: usize, app: App) {
+    let h = match sink.clone() {
+        Sink::V5(s) => ntex_rt::spawn(run_sender_v5(s, kind, j, app.clone())),
+        Sink::V3(s) => ntex_rt::spawn(run_sender_v3(s, kind, j, app.clone())),
+    };
+    let mut a = app.borrow_mut();
+    a[j].started = true;
+    a[j].handle = Some(h);
+}
+
 // ---------------------------------------------------------------------------
 
 /// What the explorer lets the peer write.
